@@ -33,6 +33,28 @@ def templates(rng, cfg_proto=None):
                         rel = [A, second] if order[0] == A else [second, A]
                         ev += [k(rel[0], 0)] + tap(60) + [k(rel[1], 0)]
                         out.append({"cfg": cfg, "abs": [], "events": ev, "tag": "template"})
+    # a key pressed WHILE a modal action key is held, then the state is switched so that the key's release takes another path
+    # (unmapped after a mapping switch / out of range), everything released, the state restored - and then an ordinary tap of that
+    # key: every stage must end silent
+    A, B = 30, 31
+    for cmode in devgen.CMODES:
+        for modal in ("cc_learning", "multinote", "octave_up", "channel_up", "panic"):
+            for switch in ("mapping", "octave"):
+                m0 = [{"sub": "", "code": A, "note": 60, "off": 0}, {"sub": "", "code": B, "note": 60, "off": 0}]
+                m1 = [{"sub": "", "code": B, "note": 62, "off": 0}]                                  # A is unmapped in M1
+                cfg = {"mappings": [{"name": "M0", "midi": m0, "analog": [], "dz": [], "defdz": [], "subs": []},
+                                    {"name": "M1", "midi": m1, "analog": [], "dz": [], "defdz": [], "subs": []}],
+                       "actions": [{"code": 59, "action": modal}, {"code": 62, "action": "mapping_up"}, {"code": 63, "action": "mapping_down"},
+                                   {"code": 64, "action": "octave_down"}, {"code": 65, "action": "octave_up" if modal != "octave_up" else "semitone_up"}],
+                       "exitseq": [], "cmode": cmode, "octave": 0, "semitone": 0, "channel": 1, "mapping": 0, "velocity": 64}
+                go, back = (tap(62), tap(63)) if switch == "mapping" else (tap(64) * 6, tap(65) * 6 if modal != "octave_up" else tap(64) * 0)
+                if switch == "octave" and modal == "octave_up":
+                    continue
+                for rel_modal_first in (False, True):
+                    ev = [k(59, 1), k(A, 1)] + go
+                    ev += ([k(59, 0), k(A, 0)] if rel_modal_first else [k(A, 0), k(59, 0)]) + back
+                    ev += tap(A) + tap(B) + [k(A, 1), k(B, 1), k(A, 0), k(B, 0)] + tap(A)
+                    out.append({"cfg": cfg, "abs": [], "events": ev, "tag": "template-modal"})
     return out
 
 
